@@ -40,6 +40,8 @@ def gen_programs(ctx):
         theta0 = lib.dyadic(rng, 0.5, 4, 3)
         sel = rep % 2 == 1
         gam = lib.dyadic(rng, -6, 4, 2) if sel else 0.0
+        if sel and rep % 6 == 5:
+            gam = -float(rng.choice([320, 512, 1024]))      # beyond the overflow guard of the genic equilibrium
         nuA = numgen.logdy(rng, 0.25, 4, 3)
         steps = [{'op': 'phi_1D', 'nu': 1.0, 'theta0': theta0, 'gamma': gam, 'h': 0.5},
                  {'op': 'one_pop', 'T': lib.dyadic(rng, 0.01, 0.06, 8), 'nu': nuA, 'gamma': gam, 'h': 0.5, 'theta0': theta0},
@@ -183,6 +185,46 @@ def run(ctx):
             ctx.violation('%d-population driver on rescaled parameters differs from the model (coq %r)' % (len(c['shape']), rr),
                           data={'case': {x: y for x, y in c.items() if not x.startswith('_')}, 'impl': c['_out']}, no_input=True,
                           broken='correspondence of the drivers with the Coq model (Model/SchemeCheck.v dcheck): the linearity / rescaling theorems are no longer shown to apply to this code; the predicates on the implementation found no failing input unless reported separately')
+    # --- the equilibrium density itself, in every numerical regime of phi_1D (gamma = 0, weak, |gamma*nu| around and far
+    #     beyond the 300 overflow guards, both signs, genic and general-h branches, beta != 1)
+    eq = []
+    gams = [-1e5, -1000.0, -350.0, -301.0, -299.0, -40.0, -1.0, -1e-6, 0.0, 1e-6, 2.0, 40.0, 299.0, 350.0, 900.0]
+    for gi, gam in enumerate(gams):
+        for h in ([0.5, 0.25] if ctx.quick else [0.5, 0.0, 0.25, 0.75, 1.0]):
+            if h != 0.5 and abs(gam) > 400:
+                continue        # general-h quadrature is not the subject here (C01), keep it in its accurate range
+            n = rng.choice([9, 13, 17])
+            g = numgen.grid(rng, n, kind=rng.choice(['exp', 'quad', 'uniform']))
+            nu0 = rng.choice([1.0, 0.5, 2.0, 3.0]); beta = rng.choice([1.0, 1.0, 3.0, 0.5]); th = lib.dyadic(rng, 0.5, 4, 3)
+            ks = [rng.choice([1 / 4, 2, 8]), numgen.logdy(rng, 0.1, 10, 4)]
+            b0 = {'kind': 'phi1d', 'grid': g, 'nu': nu0, 'theta0': th, 'gamma': gam, 'h': h, 'beta': beta}
+            eq.append((b0, [(k, dict(b0, nu=nu0 * k, theta0=th / k, gamma=gam / k)) for k in ks]))
+    flat = []
+    for b0, mem in eq:
+        b0['id'] = len(flat); flat.append(b0)
+        for k, m in mem:
+            m['id'] = len(flat); flat.append(m)
+    eres = {r['id']: r for r in lib.run_impl('c03_impl.py', flat, timeout=1800)}
+    for b0, mem in eq:
+        r0 = eres[b0['id']]
+        for k, m in mem:
+            r1 = eres[m['id']]
+            if 'error' in r0 or 'error' in r1:
+                ctx.obligation('phi_1D runs', False, 'predicate', r0.get('error') or r1.get('error'))
+                ctx.violation('phi_1D failed: %s' % (r0.get('error') or r1.get('error')), data={'base': b0, 'rescaled': m})
+                continue
+            a, bb = r0['res'], r1['res']
+            ok_fin = all(math.isfinite(x) for x in a + bb)
+            dev = reldev(a, bb) if ok_fin else float('inf')
+            tol = 1e-9 if b0['h'] == 0.5 else 1e-7
+            ok = dev <= tol
+            ctx.case(signature=('phi1d', b0['gamma'], b0['h'], b0['nu'], b0['beta'], k),
+                     sample={'predicate': 'phi_1D rescale', 'gamma': b0['gamma'], 'h': b0['h'], 'nu': b0['nu'], 'beta': b0['beta'], 'c': k, 'rel_dev': dev} if ctx.evaluations % 19 == 0 else None)
+            ctx.count('phi_1D regime %s' % ('gamma=0' if b0['gamma'] == 0 else 'guarded' if abs(b0['gamma'] * b0['nu']) >= 300 else 'ordinary'))
+            ctx.obligation('phi_1D rescale invariance gamma=%g h=%g nu=%g beta=%g c=%g' % (b0['gamma'], b0['h'], b0['nu'], b0['beta'], k), ok, 'predicate', 'rel dev %.3g' % dev)
+            if not ok:
+                ctx.violation('the equilibrium density phi_1D(nu=%g, theta0=%g, gamma=%g, h=%g, beta=%g) changes when re-expressed relative to a reference size %g times larger (rel dev %.3g)' % (
+                    b0['nu'], b0['theta0'], b0['gamma'], b0['h'], b0['beta'], k, dev), data={'base': b0, 'factor': k, 'rescaled': m, 'phi': a, 'phi_rescaled': bb})
     # --- whole models
     progs = gen_programs(ctx)
     pcases = []
